@@ -1134,7 +1134,12 @@ class FitBase(FileIOMixin, object):
 
         # Initial fit:
         self._pre_fit_iteration(first_fit=True)
-        runtime = self._fitter.do_fit()  # TODO specify other node to minimize
+        try:
+            runtime = self._fitter.do_fit()  # TODO specify other node to minimize
+        except Exception:
+            # do not leave the uncertainty nodes frozen behind a fit that could not run
+            self._post_fit_iteration(0.0, first_fit=True)
+            raise
         self._post_fit_iteration(runtime, first_fit=True)
 
         if self._iterative_fits_needed():
@@ -1143,7 +1148,11 @@ class FitBase(FileIOMixin, object):
             for i in range(kc("fit", "iterative_do_fit", "max_iterations")):
                 self._pre_fit_iteration()
                 self._fitter.reset_minimizer()  # flush iminuit cache
-                runtime = self._fitter.do_fit()
+                try:
+                    runtime = self._fitter.do_fit()
+                except Exception:
+                    self._post_fit_iteration(0.0)
+                    raise
                 self._post_fit_iteration(runtime)
                 if abs(self.cost_function_value - _previous_cost) < _convergence_limit:
                     break
@@ -1151,7 +1160,11 @@ class FitBase(FileIOMixin, object):
         elif self._second_fit_needed():
             self._pre_fit_iteration()
             self._fitter.reset_minimizer()  # flush iminuit cache
-            runtime = self._fitter.do_fit()
+            try:
+                runtime = self._fitter.do_fit()
+            except Exception:
+                self._post_fit_iteration(0.0)
+                raise
             self._post_fit_iteration(runtime)
 
         self._loaded_result_dict = None
